@@ -331,6 +331,79 @@ fn reuse_case(rep: &mut Report, seed: u64, idx: u64) {
     }
 }
 
+/// One receiver kept for a whole session: 4-12 messages one after the other, drawn from a small pool so that a
+/// message is often the very same as the one before it (a repeated KEEPALIVE, PING or CANCEL), on one or two
+/// channels. Every one of them is delivered exactly once, on its last packet.
+fn session_case(rep: &mut Report, seed: u64, idx: u64) {
+    let mut rng = Rng::derive(seed, "c16s", idx);
+    rep.eval();
+    let channels = [*rng.pick(&[1u32, 7, 0xFFFF_FFFF, 0x0102_0304]), 0x0a0b_0c0d];
+    let pool: Vec<(u32, usize, Vec<u8>)> = (0..3)
+        .map(|_| {
+            let len = *rng.pick(&[0usize, 1, 2, 17, 57, 57, 58, 116, 117, 300]);
+            let content = match rng.below(3) {
+                0 => vec![0u8; len],
+                1 => vec![0xFF; len],
+                _ => rng.bytes(len),
+            };
+            (channels[rng.below(2)], rng.below(9), content)
+        })
+        .collect();
+    let n = rng.range(4, 12);
+    let mut picks: Vec<usize> = Vec::new();
+    for i in 0..n {
+        if i > 0 && rng.bool() {
+            picks.push(picks[i - 1]);
+        } else {
+            picks.push(rng.below(pool.len()));
+        }
+    }
+    let case = json!({"index": idx, "kind": "session on one receiver", "pool": pool.iter().map(|(c, k, p)| json!({"channel": c, "command": COMMANDS[*k].1, "payload_len": p.len()})).collect::<Vec<_>>(), "sequence": picks});
+    let mut packets: Vec<Vec<Vec<u8>>> = Vec::new();
+    for (c, k, p) in &pool {
+        let Some(pk) = send_and_check(rep, *c, *k, p, &case) else { return };
+        packets.push(pk);
+    }
+    let r = catch(|| {
+        let mut h = ChannelHandler::default();
+        let mut out: Vec<Vec<(usize, u32, u8, Vec<u8>)>> = Vec::new();
+        for &m in &picks {
+            let mut got = Vec::new();
+            for (i, p) in packets[m].iter().enumerate() {
+                if let Some(msg) = h.handle_packet(p) {
+                    got.push((i, msg.channel, msg.command.encode() & 0x7f, msg.payload.clone()));
+                }
+            }
+            out.push(got);
+        }
+        out
+    });
+    match r {
+        Err((sig, d)) => rep.violate(&format!("receiver (session) {sig}"), d, case),
+        Ok(out) => {
+            let mut repeats = 0u64;
+            for (pos, (&m, got)) in picks.iter().zip(out.iter()).enumerate() {
+                let (c, k, p) = &pool[m];
+                if pos > 0 && picks[pos - 1] == m {
+                    repeats += 1;
+                }
+                if got.len() != 1 || got[0].0 != packets[m].len() - 1 || got[0].1 != *c || got[0].2 != COMMANDS[*k].1 || got[0].3 != *p {
+                    rep.violate(
+                        "session: a message fed to a receiver that has received others before is not delivered exactly once, unaltered, on its last packet",
+                        format!("message {pos} of the session ({} packets, {}the same as the one before): deliveries {:?}", packets[m].len(), if pos > 0 && picks[pos - 1] == m { "" } else { "not " }, got.iter().map(|o| (o.0, o.2, o.3.len())).collect::<Vec<_>>()),
+                        case.clone(),
+                    );
+                    break;
+                }
+            }
+            rep.count("sessions_checked");
+            rep.count_n("session_messages", picks.len() as u64);
+            rep.count_n("session_messages_identical_to_their_predecessor", repeats);
+            rep.nontrivial(fnv(format!("session|{:?}|{:?}", pool.iter().map(|x| (x.0, x.1, x.2.len())).collect::<Vec<_>>(), picks).as_bytes()));
+        }
+    }
+}
+
 fn all_merges(counts: &[usize], cur: &mut Vec<u8>, left: &mut Vec<usize>, out: &mut Vec<Vec<u8>>, cap: usize) {
     if out.len() >= cap {
         return;
@@ -589,7 +662,7 @@ pub fn run(args: &Args) -> Report {
         "C16",
         &args.tier,
         args.seed,
-        "messages of every payload length (thorough: all of 0..7610 plus 65535/65536; quick: all boundary lengths and a seeded sample) x 9 commands x channels {0, 1, 0xFFFFFFFF, random} x contents {random, 0x00, 0xFF} sent through Message::send into a capturing writer and parsed by an own packet parser, then fed to ChannelHandler; 2-4 channels interleaved: all order-preserving merges when the streams total <= 10 packets, seeded merges otherwise, with stray continuation packets injected; 5-64 channels transmitting messages of 300-7608 bytes at once; transfers that pause for 0.7-6 s between two packets; distinct by (length, command, channel) resp. hash of the merge order; non-trivial when the message spans more than one packet or at least two channels are interleaved",
+        "messages of every payload length (thorough: all of 0..7610 plus 65535/65536; quick: all boundary lengths and a seeded sample) x 9 commands x channels {0, 1, 0xFFFFFFFF, random} x contents {random, 0x00, 0xFF} sent through Message::send into a capturing writer and parsed by an own packet parser, then fed to ChannelHandler; 2-4 channels interleaved: all order-preserving merges when the streams total <= 10 packets, seeded merges otherwise, with stray continuation packets injected; 5-64 channels transmitting messages of 300-7608 bytes at once; transfers that pause for 0.7-6 s between two packets; sessions of 4-12 messages on one receiver in which a message is often identical to its predecessor; distinct by (length, command, channel) resp. hash of the merge order; non-trivial when the message spans more than one packet or at least two channels are interleaved",
     );
     rep.assumptions.push("the byte order of the 4 channel-id bytes is left open by the specification: only 'same in every packet and decoded to the same channel' is demanded".into());
     rep.assumptions.push("Message::new refuses exactly 7609 bytes (it counts one continuation packet too many when the remainder is a multiple of 59); the statement speaks of accepted messages and of lengths above 7609, so this is recorded, not judged".into());
@@ -664,6 +737,12 @@ pub fn run(args: &Args) -> Report {
             let idx = 20_000_000 + k;
             if only.map_or(true, |o| o == idx) {
                 reuse_case(&mut rep, args.seed, idx);
+            }
+        }
+        for k in 0..args.size(400, 8000) as u64 {
+            let idx = 60_000_000 + k;
+            if only.map_or(true, |o| o == idx) {
+                session_case(&mut rep, args.seed, idx);
             }
         }
         for k in 0..args.size(10, 60) as u64 {
